@@ -531,11 +531,41 @@ pub fn stream<F: Fam>(tier: &str, seed: u64) -> Vec<String> {
     }
     for i in 0..n {
         let p = F::gen(&mut rng, i, Sizes { big: false });
-        for m in malformations::<F>(&p, &mut rng) {
+        let ms = malformations::<F>(&p, &mut rng);
+        for m in &ms {
             let h = hex(&m.frame);
             out.push(format!("dec {} {}", F::NAME, h));
             out.push(format!("deca {} {} eof", F::NAME, h));
             out.push(format!("poll {} {} - eof", F::NAME, h));
+        }
+        // TWO malformations at once (which one is reported is part of the observable behaviour: the model
+        // fixes the order of checks, the correspondence compares it): pairs of same-length byte-substitution
+        // malformations touching different positions of the same packet
+        if let Ok(enc) = F::encode(&p) {
+            let subs: Vec<&Malformed> = ms.iter().filter(|m| m.frame.len() == enc.len()).collect();
+            for _ in 0..(subs.len().min(8)) {
+                if subs.len() < 2 {
+                    break;
+                }
+                let a = *rng.pick(&subs);
+                let b = *rng.pick(&subs);
+                let mut f = enc.clone();
+                let mut both = 0;
+                for k in 0..f.len() {
+                    if a.frame[k] != enc[k] {
+                        f[k] = a.frame[k];
+                        both |= 1;
+                    } else if b.frame[k] != enc[k] {
+                        f[k] = b.frame[k];
+                        both |= 2;
+                    }
+                }
+                if both == 3 {
+                    let h = hex(&f);
+                    out.push(format!("dec {} {}", F::NAME, h));
+                    out.push(format!("poll {} {} - eof", F::NAME, h));
+                }
+            }
         }
     }
     out
